@@ -516,9 +516,10 @@ package gorums
 // Decoding never panics, for ARBITRARY bytes b (no precondition on b): the only
 // preconditions are the ones newMessage establishes for the Message handed to grpc.
 //@ func newMessage
-//@   props C13
+//@   props C13 C04
 //@   nopanic C13
 //@   ensures[C13.a] result != nil && result.Metadata != nil && result.msgType == msgType && result.Message == nil
+//@   ensures[C04.d] !wasalloc(result) && !wasalloc(result.Metadata)
 
 //@ func (Codec).gorumsUnmarshal
 //@   props C13
@@ -971,6 +972,8 @@ package gorums
 //@   opt semaphore=obj
 //@   opt optional-hooks=1
 
+// C04.d: a handler that has released runs concurrently with later ones, so the request object
+// handed to a handler is never handed to (or reused for) a later one: ghost set `handed`.
 //@ func (*orderingServer).NodeStream
 //@   props C03 C04 C10
 //@   nopanic C04
@@ -979,18 +982,22 @@ package gorums
 //@   ghost awaited Int = 0
 //@   ghost callbacks Int = 0
 //@   ghost recvs Int = 0
+//@   ghost handed (Array Int Bool) = constarr("Int", false)
 //@   on call "s.opts.connectCallback"
 //@     assert[C10.d] callbacks == 0 && recvs == 0 && arg0 == srvCtx(srv)
 //@     after set callbacks = callbacks + 1
 //@   loop "for {"
 //@     invariant[C04.a] started == awaited && heldobj(addr(mut))
 //@     invariant[C10.d] callbacks == ite(s.opts.connectCallback != nil, 1, 0) && ctx == srvCtx(srv)
+//@     invariant[C04.d] forall(r, "Int", handed[r] ==> allocated(r))
 //@   on call "srv.RecvMsg"
 //@     assert[C04.a] started == awaited && heldobj(addr(mut))
 //@     after set recvs = recvs + 1
 //@   on go "handler"
 //@     assert[C04.a,C03.c] started == awaited && heldobj(addr(mut)) && arg1 == req && arg2 == finished
 //@     assert[C04.b] fresh(arg0.once) && arg0.mut == addr(mut) && arg0.Context == srvCtx(srv)
+//@     assert[C04.d] arg1 != nil && !handed[arg1]
+//@     set handed = store(handed, arg1, true)
 //@     set started = started + 1
 //@   on call "mut.Lock"
 //@     assert[C04.a] started == awaited + 1 || (started == 0 && awaited == 0)
